@@ -377,6 +377,9 @@ theorem rat_missing_slash_counterexample :
 theorem floatLiteral_spec (binary : Bool) (toks : List Tok) (v : FPVal) (h : floatLiteral binary toks = some v) :
     rtFloat binary toks = some v ∧ FCanon (if binary then 2 else 10) ⟨v.signif, v.exp⟩ := by
   unfold floatLiteral at h
+  by_cases hc : (binary && fbigSecondSign toks) = true
+  · rw [if_pos hc] at h; cases h
+  rw [if_neg hc] at h
   cases h1 : (if binary = true then fbigAsIs toks else dbigAsIs toks) with
   | none => simp [h1] at h
   | some a =>
